@@ -371,7 +371,12 @@ func cmdC14(c *ctx) {
 		}
 		for _, o := range ovs {
 			if o.id >= 0 {
-				fmt.Fprintf(&decls, "@id(%d) ", o.id)
+				// the argument is a const-expression: other spellings of the same number
+				idS := fmt.Sprintf("%d", o.id)
+				if c.chance(0.4) {
+					idS = []string{fmt.Sprintf("%du", o.id), fmt.Sprintf("0x%x", o.id), fmt.Sprintf("(%d)", o.id), fmt.Sprintf("%d + 0", o.id), fmt.Sprintf("%d,", o.id)}[c.rng.Intn(5)]
+				}
+				fmt.Fprintf(&decls, "@id(%s) ", idS)
 			}
 			fmt.Fprintf(&decls, "override %s: %s", o.name, o.ty)
 			if o.init != nil {
